@@ -336,7 +336,20 @@ pub fn parse_rootdefinition_constantbuffer(
         cb_ir.lang_binding.set = Some(binding_group);
     }
 
-    assert!(!attribute_result.is_bindless);
+    // A constant buffer block can not be bindless so the attribute has no meaning here
+    if attribute_result.is_bindless {
+        let location = cb
+            .attributes
+            .iter()
+            .filter_map(|attribute| attribute.name.last())
+            .find(|leaf| leaf.node == "bindless")
+            .map(|leaf| leaf.location)
+            .unwrap_or(cb_ir.name.location);
+        return Err(TyperError::GlobalAttributeUnknown(
+            String::from("bindless"),
+            location,
+        ));
+    }
 
     cb_ir.members = members;
 
